@@ -264,9 +264,14 @@ def check_paths(sa, sb):
 
 
 def run_one(kind, inp):
-    if kind == "pair":
-        return check_pair([tuple(p) for p in inp["a"]], [tuple(p) for p in inp["b"]])
-    return check_paths([[tuple(p) for p in s] for s in inp["a"]], [[tuple(p) for p in s] for s in inp["b"]])
+    try:
+        if kind == "pair":
+            return check_pair([tuple(p) for p in inp["a"]], [tuple(p) for p in inp["b"]])
+        return check_paths([[tuple(p) for p in s] for s in inp["a"]], [[tuple(p) for p in s] for s in inp["b"]])
+    except RecursionError:
+        return "the distance query does not terminate (recursion limit reached)"
+    except Exception as ex:
+        return "the distance query raised %s: %s" % (type(ex).__name__, ex)
 
 
 def rand_chain(rng):
